@@ -327,7 +327,14 @@ def run(tier):
                 opt = peel(val[1][1])
             # which kind of payload / whether a port exists is decided by enum tests (on the payload description, on the port option);
             # anything else - a length, an emptiness test, a flag - makes the port byte depend on more than the presence of a port
-            other = [cn for cn in extra if not (isinstance(cn[0], tuple) and cn[0][:1] == ('discr',) and not term_contains(cn[0], lambda y: isinstance(y, tuple) and y[:1] == ('call',)))]
+            def enum_test(cn):
+                tm_ = cn[0]
+                if not (isinstance(tm_, tuple) and tm_[:1] == ('discr',)):
+                    return False
+                # the only calls allowed inside are the plumbing of `?` / combinators on the option itself
+                return not term_contains(tm_, lambda y: isinstance(y, tuple) and y[:1] == ('call',) and isinstance(y[1], str) and
+                                         not y[1].endswith(('Try::branch', 'Option::map', 'Option::as_ref', 'Option::copied', 'NonZero::get', 'Into::into', 'From::from')))
+            other = [cn for cn in extra if not enum_test(cn)]
             okp = not other
             whyp = 'the port byte is written only under %s' % [(term_str(cn[0])[:50], cn[1]) for cn in other]
     res.require(okp, 'C01:DataFrame::build_into:fport-guard', 'FPort: %s - a frame with a port and an empty FRMPayload keeps whatever the buffer held at that offset (and the MIC covers it)' % whyp, bf.body.path,
